@@ -1,7 +1,7 @@
 SPECIFICATION SpecBfs
 CONSTRAINT Bounded
 INVARIANTS ResultFromHistory Confined NoConflicts
-PROPERTIES OtherBucketsUntouched OnlyWritesChange
+PROPERTIES OtherBucketsUntouched OnlyWritesChange OnlyTargetChanges
 CHECK_DEADLOCK FALSE
 CONSTANTS
  Buckets = {"u", "u2"}
@@ -11,3 +11,5 @@ CONSTANTS
  MaxOps = 3
  Styles = {"write", "nowrite"}
  EmptyData = "d0"
+ CopyOn = FALSE
+ CopyMiss = {}
